@@ -43,12 +43,19 @@ def confirm(sd):
     demo = os.path.join(sd, 'demo.rs')
     d, w = scratch()
     res = {'patch': patch}
+    feats = []
+    try:
+        if 'serde' in open(demo).read() or 'serialization' in open(patch).read():
+            feats = ['--features', 'serde']
+            res['demo_features'] = 'serde'
+    except Exception:
+        pass
     try:
         # demo on the unchanged tree first
         shutil.copy(demo, os.path.join(w, 'tests', 'seed_demo.rs'))
         res['demo_clean'] = {}
         for prof in ('dev', 'release'):
-            rc, out = sh(['cargo', 'test', '--offline', '--test', 'seed_demo'] + (['--release'] if prof == 'release' else []), w)
+            rc, out = sh(['cargo', 'test', '--offline', '--test', 'seed_demo'] + feats + (['--release'] if prof == 'release' else []), w)
             res['demo_clean'][prof] = rc == 0
         rc, out = sh(['git', 'apply', patch], w)
         res['applies'] = rc == 0
@@ -57,7 +64,7 @@ def confirm(sd):
             return res
         res['demo_patched'] = {}
         for prof in ('dev', 'release'):
-            rc, out = sh(['cargo', 'test', '--offline', '--test', 'seed_demo'] + (['--release'] if prof == 'release' else []), w)
+            rc, out = sh(['cargo', 'test', '--offline', '--test', 'seed_demo'] + feats + (['--release'] if prof == 'release' else []), w)
             res['demo_patched'][prof] = rc == 0
             if rc != 0:
                 res.setdefault('demo_fail_excerpt', out[-700:])
